@@ -166,6 +166,11 @@ def anchors():
         date_rules[lang] = re.findall(r'"([^"]*)"\.to_string\(\)', body)
     if not date_rules:
         die("default date patterns not found in SmartCalc::default")
+    # where set_date_rule puts the small_date rule: in front of the configured rules or behind them
+    m2 = re.search(r"pub fn set_date_rule.*?current_rules\.(insert\(0,|push\()\s*RuleType::Internal", src, re.S)
+    if not m2:
+        die("anchor: position of the small_date rule in set_date_rule not found")
+    date_rules["__first__"] = m2.group(1).startswith("insert")
     return order, [n for n, _ in fns], date_rules
 
 
@@ -174,7 +179,8 @@ def main():
     raw = open(cfg_path, encoding="utf-8").read()
     cfg = json.loads(raw, parse_float=lambda s: s, parse_int=lambda s: s)
     order, fn_names, date_rules = anchors()
-    digest = hashlib.sha256((raw + json.dumps([order, fn_names, date_rules])).encode()).hexdigest()
+    date_first = date_rules.pop("__first__")
+    digest = hashlib.sha256((raw + json.dumps([order, fn_names, date_rules, date_first])).encode()).hexdigest()
 
     # ---- the implementation's own tokenised patterns ------------------------------------------
     pats = []   # (lang, text)
@@ -282,7 +288,10 @@ def main():
         if lang in date_rules:
             plist = llist([llist([linfo(t) for t in lexed[(lang, p)]]) for p in date_rules[lang]])
             rule_defs.append(f"def rule_{lang}_small_date : Rule F := ⟨.smallDate, {plist}⟩\n")
-            rules.append(f"    rule_{lang}_small_date F")
+            if date_first:
+                rules.insert(0, f"    rule_{lang}_small_date F")
+            else:
+                rules.append(f"    rule_{lang}_small_date F")
         durs = llist([f"⟨{lstr(d['count'])}, {lstr(d['format'])}, {DUR_KIND[d['duration_type']]}⟩" for d in L["format"]["duration"]])
         datef = llist([f"({lstr(k)}, {lstr(L['format']['date'][k])})" for k in rust_sorted(L["format"]["date"].keys())])
         months = [["", ""] for _ in range(12)]
